@@ -161,13 +161,17 @@ fn rand_layout(rng: &mut Rng) -> Layout {
 /// (a) in process: instruction i's source-map offset lies on the generator-known line
 fn check_map(rep: &Report, p: &Program, rng: &mut Rng, core: Option<String>, kind: &str) {
     let lay = rand_layout(rng);
-    let mut r = p.render(&mut Spell::random(rng.fork(9)), &lay);
+    let (pad, indent) = rand_scale(rng);
+    let mut r = p.render(&mut Spell::random(rng.fork(9)), &lay).scaled(pad, indent);
     let use_crlf = rng.chance(1, 4);
     if use_crlf {
         r.text = crlf(&r.text);
     }
     let stripped = strip_comments(&r.text);
     rep.eval(1);
+    if pad + indent > 0 {
+        rep.count("programs at scale (line numbers beyond 255 / 65535, columns beyond 255)", 1);
+    }
     let a = match assemble(&stripped) {
         Ok(a) => a,
         Err(_) => {
@@ -244,7 +248,11 @@ fn is_macro_generated(p: &Program, flat_idx: usize) -> bool {
 /// (b) the binary's run-time messages
 fn check_messages(rep: &Report, c: &CiteCase, rng: &mut Rng, core: Option<usize>) {
     let lay = rand_layout(rng);
-    let mut r = c.program.render(&mut Spell::random(rng.fork(5)), &lay);
+    let (pad, indent) = rand_scale(rng);
+    let mut r = c.program.render(&mut Spell::random(rng.fork(5)), &lay).scaled(pad, indent);
+    if pad + indent > 0 {
+        rep.count("programs at scale (line numbers beyond 255 / 65535, columns beyond 255)", 1);
+    }
     let use_crlf = rng.chance(1, 4);
     if use_crlf {
         r.text = crlf(&r.text);
@@ -417,7 +425,11 @@ fn check_diag(rep: &Report, rng: &mut Rng, core: Option<usize>, cli: bool) {
     let np = 3 + rng.below(10);
     let p = rand_program_any(rng, np);
     let lay = Layout { trailing_newline: rng.chance(1, 2), filler_pct: *rng.pick(&[0u32, 30]), pack_pct: 0, comments: rng.chance(1, 3) };
-    let r = p.render(&mut Spell::random(rng.fork(2)), &lay);
+    let (pad, indent) = rand_scale(rng);
+    let r = p.render(&mut Spell::random(rng.fork(2)), &lay).scaled(pad, indent);
+    if pad + indent > 0 {
+        rep.count("programs at scale (line numbers beyond 255 / 65535, columns beyond 255)", 1);
+    }
     let mut r = r;
     if rng.chance(1, 4) {
         r.text = crlf(&r.text);
